@@ -77,14 +77,13 @@ impl Substance {
                 })
         } else {
             for prop in self.properties.properties.values() {
+                // The amount is taken as a multiple of the property's
+                // input or output, so that an amount of zero is fine.
                 if name == prop.output_name {
-                    let input = (&prop.input / &self.amount)
+                    let inputs = (&self.amount / &prop.input)
                         .ok_or_else(|| SubstanceGetError::Generic("Division by zero".to_owned()))?;
-                    if input.dimless() {
-                        let res = (&prop.output / &input).ok_or_else(|| {
-                            SubstanceGetError::Generic("Division by zero".to_owned())
-                        })?;
-                        return Ok(res);
+                    if inputs.dimless() {
+                        return Ok((&prop.output * &inputs).unwrap());
                     } else {
                         return Err(SubstanceGetError::Conformance(
                             self.amount.clone(),
@@ -92,13 +91,10 @@ impl Substance {
                         ));
                     }
                 } else if name == prop.input_name {
-                    let output = (&prop.output / &self.amount)
+                    let outputs = (&self.amount / &prop.output)
                         .ok_or_else(|| SubstanceGetError::Generic("Division by zero".to_owned()))?;
-                    if output.dimless() {
-                        let res = (&prop.input / &output).ok_or_else(|| {
-                            SubstanceGetError::Generic("Division by zero".to_owned())
-                        })?;
-                        return Ok(res);
+                    if outputs.dimless() {
+                        return Ok((&prop.input * &outputs).unwrap());
                     } else {
                         return Err(SubstanceGetError::Conformance(
                             self.amount.clone(),
@@ -195,20 +191,20 @@ impl Substance {
             })
         } else {
             let func = |(_k, v): (&String, &Property)| {
-                let input = try_div!(v.input, self.amount, context);
-                let output = try_div!(v.output, self.amount, context);
-                let (name, input, output) = if input.dimless() {
+                let inputs = try_div!(self.amount, v.input, context);
+                let outputs = try_div!(self.amount, v.output, context);
+                let (name, input, output) = if inputs.dimless() {
                     if v.output.unit != unit.unit {
                         return Ok(None);
                     }
-                    let div = try_div!(v.output, input, context);
-                    (v.output_name.clone(), None, div)
-                } else if output.dimless() {
+                    let value = (&v.output * &inputs).unwrap();
+                    (v.output_name.clone(), None, value)
+                } else if outputs.dimless() {
                     if v.input.unit != unit.unit {
                         return Ok(None);
                     }
-                    let div = try_div!(v.input, output, context);
-                    (v.input_name.clone(), None, div)
+                    let value = (&v.input * &outputs).unwrap();
+                    (v.input_name.clone(), None, value)
                 } else {
                     return Ok(None);
                 };
@@ -311,14 +307,14 @@ impl Substance {
             })
         } else {
             let func = |(_k, v): (&String, &Property)| {
-                let input = try_div!(v.input, self.amount, context);
-                let output = try_div!(v.output, self.amount, context);
-                let (name, input, output) = if input.dimless() {
-                    let div = try_div!(v.output, input, context);
-                    (v.output_name.clone(), None, div)
-                } else if output.dimless() {
-                    let div = try_div!(v.input, output, context);
-                    (v.input_name.clone(), None, div)
+                let inputs = try_div!(self.amount, v.input, context);
+                let outputs = try_div!(self.amount, v.output, context);
+                let (name, input, output) = if inputs.dimless() {
+                    let value = (&v.output * &inputs).unwrap();
+                    (v.output_name.clone(), None, value)
+                } else if outputs.dimless() {
+                    let value = (&v.input * &outputs).unwrap();
+                    (v.input_name.clone(), None, value)
                 } else {
                     return Ok(None);
                 };
